@@ -310,3 +310,104 @@ def lossy_wrappers(n):
                 and strip_tmpl(x.get("cls") or "") in ("QString", "QByteArray", "QStringRef", "QStringView", "QLatin1String"):
             out.append((x.get("callee") or "").split("::")[-1])
     return out
+
+
+def initlist_pairs(n):
+    """[(first, second)] nodes of a brace-initialised associative container: QHash{ {k, v}, ... }"""
+    n = skip_copies(n)
+    out = []
+    for x in walk(n):
+        if x.get("k") == "initlist":
+            for el in x.get("els", []):
+                e = skip_copies(el)
+                if isinstance(e, dict) and e.get("k") in ("construct", "initlist"):
+                    a = e.get("args") if e.get("k") == "construct" else e.get("els")
+                    if a and len(a) == 2:
+                        out.append((a[0], a[1]))
+            break
+    return out
+
+
+def concat_leaves(n):
+    """leaves of a string concatenation expression (operator+ / QStringBuilder %), left to right"""
+    n = skip_copies(n)
+    if isinstance(n, dict) and n.get("k") == "call" and n.get("op") in ("+", "%") and len(n.get("args", [])) == 2:
+        return concat_leaves(n["args"][0]) + concat_leaves(n["args"][1])
+    if isinstance(n, dict) and n.get("k") == "binop" and n.get("op") == "+":
+        return concat_leaves(n.get("lhs")) + concat_leaves(n.get("rhs"))
+    if isinstance(n, dict) and n.get("k") == "construct" and n.get("class") in ("QString",) and len(n.get("args", [])) == 1 and const_str(n) is None:
+        return concat_leaves(n["args"][0])
+    return [n]
+
+
+def regex_groups(pat):
+    """capturing groups of a regular expression literal, in order: [(content, start index)]"""
+    out = []
+    stack = []
+    i = 0
+    in_class = False
+    while i < len(pat):
+        ch = pat[i]
+        if ch == "\\":
+            i += 2
+            continue
+        if in_class:
+            if ch == "]":
+                in_class = False
+        elif ch == "[":
+            in_class = True
+        elif ch == "(":
+            cap = not pat.startswith("(?", i)
+            stack.append((i, cap, len(out)))
+            if cap:
+                out.append(None)
+        elif ch == ")":
+            if stack:
+                st, cap, idx = stack.pop()
+                if cap:
+                    out[idx] = (pat[st + 1:i], st)
+        i += 1
+    return [g for g in out if g is not None]
+
+
+def var_history(fn, g, decl):
+    """events on a local variable in execution order: ('init', node), ('assign', assign node, rhs), ('call', call node),
+    ('use', ref node). Requires the events to be totally ordered by dominance (straight-line idiom)."""
+    dn, var = local_var(fn, decl)
+    if var is None:
+        raise AnalysisBroken("local %s not found in %s" % (decl, fn.sig))
+    evs = [("init", dn, var.get("init"))]
+    for r in refs_to(fn, decl):
+        asg, rhs = assignment_target(fn, r)
+        if asg is not None:
+            evs.append(("assign", asg, rhs))
+            continue
+        p = fn.nodes.get(fn.parent.get(r["id"]))
+        if p is not None and p.get("k") == "call" and p.get("ck") == "member" and isinstance(p.get("obj"), dict) and skip_copies(p["obj"]).get("id") == r["id"] and p.get("constm") is False:
+            evs.append(("call", p, None))
+            continue
+        # reads that feed an assignment to the same variable are part of that assignment
+        anc = list(fn.ancestors(r))
+        if any(a.get("id") == e[1].get("id") for e in evs if e[0] == "assign" for a in anc):
+            continue
+        evs.append(("use", r, None))
+    keyed = []
+    for e in evs:
+        s = g.site_of(e[1])
+        if s is None:
+            raise AnalysisBroken("event on %s without CFG element in %s" % (var.get("name"), fn.sig))
+        keyed.append((s, e))
+    # order by dominance
+    import functools
+
+    def cmp(a, b):
+        if a[0] == b[0]:
+            return 0
+        if g.dominated(b[0], {a[0]}):
+            return -1
+        if g.dominated(a[0], {b[0]}):
+            return 1
+        raise AnalysisBroken("uses of local %s in %s are not totally ordered (branching idiom not recognised)" % (var.get("name"), fn.sig))
+    keyed.sort(key=functools.cmp_to_key(cmp))
+    # reads inside a later assignment's rhs sort before the assignment's own site; fine
+    return [e for _, e in keyed]
